@@ -122,6 +122,8 @@ impl<T> Subscriber<T> {
 
     fn poll_next_ref(&mut self, cx: &Context<'_>) -> Poll<Option<ObservableReadGuard<'_, T>>> {
         let state = self.state.lock();
+        #[cfg(eyeball_verif)]
+        crate::verif::pause("poll_value_locked");
         state
             .poll_update(&mut self.observed_version, cx)
             .map(|ready| ready.map(|_| ObservableReadGuard::new(state)))
